@@ -260,3 +260,100 @@ pub async fn run() {
     let _ = sim::op("end b", sb.end()).await;
     let _ = sim::op("close", pair.client.close()).await;
 }
+
+// ---------------------------------------------------------------------------------------
+// "No two sessions of a connection share a channel", seen from the listener: the channel numbers
+// are the peer's. A scripted peer begins a session, uses it, and then sends a second begin on the
+// same channel without having ended the first. The listener must not give that channel a second
+// session (it may refuse the connection); whatever it does, no second begin may answer the
+// channel, and what the peer sends for the first session's link must not reach another session.
+
+pub async fn run_duplicate_begin() {
+    use crate::peer::{self, AttachArgs, PeerSession, TransferArgs};
+    use crate::wire;
+    use fe2o3_amqp::acceptor::SessionAcceptor;
+    let lcfg = EndpointCfg::default_cfg();
+    let (nab, nba, nd) = world::draw_net(true);
+    let ch = pick(&[0u16, 0, 3, 200]);
+    let with_link = choice(2) == 1;
+    sim::set_config(format!("variant=duplicate-begin-vs-listener channel={} link-on-first-session={} {}", ch, with_link, nd));
+    sim::mark_nontrivial();
+    sim::set_panic_is_violation(true);
+    let models = Models { sess: true, ..Models::none() };
+    let pvl = match peer::peer_vs_listener(&lcfg, peer::open("peer", Some(65536), Some(255), None), nab, nba, models).await {
+        Some(x) => x,
+        None => return,
+    };
+    let peer::ListenerVsPeer { mut listener, mut peer, .. } = pvl;
+    let log: Log = Rc::new(RefCell::new(Vec::new()));
+    let log2 = log.clone();
+    let sessions_accepted = Rc::new(std::cell::Cell::new(0usize));
+    let sa2 = sessions_accepted.clone();
+    sim::spawn(
+        "listener-sessions",
+        sim::in_group(2, async move {
+            let acc = SessionAcceptor::new();
+            let mut si = 0usize;
+            while let Ok(sess) = acc.accept(&mut listener).await {
+                sa2.set(sa2.get() + 1);
+                listener_session(si, sess, log2.clone());
+                si += 1;
+            }
+            let _ = listener.on_close().await;
+        }),
+    );
+    let mut ps = PeerSession::new(ch, 0, 5000, 5000);
+    peer.send(ch, &peer::begin(None, 0, 5000, 5000)).await;
+    let b = match peer.expect(wire::BEGIN).await {
+        Some(b) => b,
+        None => {
+            sim::violation("begin-failed", "the listener did not answer the first begin".into());
+            return;
+        }
+    };
+    ps.on_remote_begin(b.perf.as_ref().unwrap(), b.channel);
+    if with_link {
+        peer.send(ch, &peer::attach(&AttachArgs::sender("first", 0))).await;
+        if peer.expect(wire::ATTACH).await.is_none() {
+            sim::violation("attach-failed", "the listener did not answer the attach on the first session".into());
+            return;
+        }
+        let _ = peer.drain_for(50).await;
+    }
+    // the second begin on the channel that is in use
+    sim::fault("begin-on-a-channel-in-use");
+    peer.send(ch, &peer::begin(None, 0, 5000, 5000)).await;
+    let mut second_begin = false;
+    let mut closed = false;
+    for f in peer.drain_for(pick(&[50u64, 500])).await {
+        if f.code == wire::BEGIN {
+            second_begin = true;
+        }
+        if f.code == wire::CLOSE {
+            closed = true;
+        }
+    }
+    if second_begin {
+        sim::violation(
+            "channel-shared-by-two-sessions",
+            format!("the peer began a second session on channel {} without ending the first; the listener answered with a second begin (sessions accepted by the application: {})", ch, sessions_accepted.get()),
+        );
+        return;
+    }
+    if !closed && with_link {
+        // the connection was left up: the first session's link still gets what is sent for it
+        let m = msgs::gen_message(77, 60, 1);
+        let t = TransferArgs { handle: 0, delivery_id: Some(0), delivery_tag: Some(vec![7]), message_format: Some(0), settled: Some(true), ..Default::default() };
+        peer.send_with_payload(ch, &peer::transfer(&t), &msgs::encode(&m)).await;
+        ps.on_transfer_sent();
+        let _ = peer.drain_for(500).await;
+        let got = log.borrow();
+        if !(peer.eof || got.iter().any(|g| g.0 == 0 && g.1 == "first" && g.2 == 77)) && !got.is_empty() {
+            sim::violation("misrouted-message", format!("a message for the first session's link arrived as {:?}", *got));
+            return;
+        }
+    }
+    sim::probe("duplicate-begin-refused");
+    peer.send(0, &peer::close(None)).await;
+    let _ = peer.drain_for(1000).await;
+}
